@@ -1,1 +1,663 @@
-"""placeholder"""
+"""Index-space typing (X-domain): R-BLISS and R-BIJ.
+
+Types (tuples):
+  ('Graph', g)                      networkx graph with identity symbol g
+  ('IGraph', g, space)              igraph graph made from g; vertex ids live in `space` ('IG' | 'CAN')
+  ('VS', g, space)
+  ('Seq', A, B, bij, n)             sequence indexed by space A holding values in space B;
+                                    bij: every value once and all of them; n: length symbol
+  ('Pairs', A, B, bij, n)  ('Map', A, B, bij, n)  ('Idx', A)  ('Key', text)  ('Const', v)  ('Unknown', why)
+Spaces: ('NX', g) labels of g, ('IG', g) igraph vertex ids = insertion positions of g, ('CAN', g) canonical
+positions, 'COL' colours, 'POS' plain positions 0..n-1, 'ATTR'.
+"""
+from __future__ import annotations
+
+import ast
+import pathlib
+import re
+import sys
+from typing import Optional
+
+from ..cfg import cfg_of
+from ..model import AnalysisError, FuncInfo, norm, short
+from ..report import Finding, RuleResult
+from . import rule
+from .common import all_public_closure, assigned_names, closure, entry, ext_calls, kwarg, own_walk, params_of, single_def, sites, try_const
+from .spec import IGRAPH_CONVENTION
+
+
+def installed_igraph_version(ctx) -> tuple[str, str]:
+    """(major.minor, source) read from igraph-*.dist-info/METADATA next to the interpreter's site-packages (a file read)"""
+    override = ctx.cache.get("igraph_version")
+    if override:
+        return override, "override"
+    cands = []
+    for p in sys.path:
+        if p and pathlib.Path(p).is_dir():
+            cands += list(pathlib.Path(p).glob("igraph-*.dist-info/METADATA")) + list(pathlib.Path(p).glob("python_igraph-*.dist-info/METADATA"))
+    for p in cands:
+        m = re.search(r"^Version: (\d+)\.(\d+)", p.read_text(errors="replace"), re.M)
+        if m:
+            return f"{m.group(1)}.{m.group(2)}", str(p)
+    raise AnalysisError("cannot determine the installed igraph version (no igraph-*.dist-info/METADATA on sys.path)")
+
+
+class XViolation(Exception):
+    def __init__(self, node, msg):
+        self.node, self.msg = node, msg
+
+
+def U(why):
+    return ("Unknown", why)
+
+
+class XTyper:
+    def __init__(self, ctx, conv: Optional[str], strict: bool = True):
+        self.ctx = ctx
+        self.conv = conv
+        self.strict = strict       # False: index-space mismatches are noted, not raised (R-BIJ only needs one-to-one-ness)
+        self.notes: list[str] = []
+        self.relabels: list[tuple] = []     # (fi, call node, graph type, map type)
+        self.bliss_sites: list[tuple] = []
+        self.depth = 0
+        self.counter = 0
+
+    def fresh(self, hint="g"):
+        self.counter += 1
+        return f"{hint}{self.counter}"
+
+    # ---- functions
+    def call(self, fi: FuncInfo, args: list):
+        if self.depth > 10:
+            return U("depth")
+        env = {}
+        for p, a in zip(params_of(fi.node)[(1 if fi.cls else 0):], args):
+            env[p] = a
+        self.depth += 1
+        try:
+            ret = self.block(fi, fi.node.body, env)
+        finally:
+            self.depth -= 1
+        return ret if ret is not None and ret[0] != "NoValue" else ("Const", None)
+
+    def block(self, fi, body, env):
+        ret = None
+        for st in body:
+            r = self.stmt(fi, st, env)
+            if r is not None:
+                ret = r if ret is None else self.join(ret, r)
+        return ret
+
+    def join(self, a, b):
+        if a == b or b[0] == "NoValue":
+            return a
+        if a[0] == "NoValue":
+            return b
+        if a[0] == b[0] == "Graph":
+            return a
+        return U(f"join of {a[0]} and {b[0]}")
+
+    def stmt(self, fi, st, env):
+        if isinstance(st, ast.Expr):
+            if isinstance(st.value, (ast.Yield, ast.YieldFrom)) and st.value.value is not None:
+                v = self.ev(fi, st.value.value, env)
+                return ("Gen", v) if isinstance(st.value, ast.Yield) else v
+            if isinstance(st.value, ast.Call):
+                self.ev(fi, st.value, env)
+            return None
+        if isinstance(st, (ast.Assign, ast.AnnAssign)):
+            if isinstance(st, ast.AnnAssign) and st.value is None:
+                return None
+            v = self.ev(fi, st.value, env)
+            for tg in (st.targets if isinstance(st, ast.Assign) else [st.target]):
+                self.assign(tg, v, env)
+            return None
+        if isinstance(st, ast.Return):
+            return self.ev(fi, st.value, env) if st.value is not None else ("NoValue",)
+        if isinstance(st, ast.If):
+            e1, e2 = dict(env), dict(env)
+            r1 = self.block(fi, st.body, e1)
+            r2 = self.block(fi, st.orelse, e2)
+            for k in set(e1) | set(e2):
+                a, b = e1.get(k), e2.get(k)
+                env[k] = a if a == b else (a if b is None else b if a is None else self.join(a, b))
+            if r1 is not None and r2 is not None:
+                return self.join(r1, r2)
+            return r1 if r1 is not None else r2
+        if isinstance(st, ast.While):
+            r = None
+            for _ in range(2):
+                r0 = self.block(fi, st.body, env)
+                r = r0 if r is None else r
+            return r
+        if isinstance(st, ast.For):
+            it = self.ev(fi, st.iter, env)
+            self.bind_iter(st.target, it, env)
+            # inverse-building idiom:  inv[v] = i  for i, v in enumerate(perm)
+            for b in st.body:
+                if isinstance(b, ast.Assign) and isinstance(b.targets[0], ast.Subscript) and isinstance(b.targets[0].value, ast.Name):
+                    k = self.ev(fi, b.targets[0].slice, env)
+                    v = self.ev(fi, b.value, env)
+                    if k[0] == "Idx" and v[0] == "Idx" and it[0] == "Pairs":
+                        env[b.targets[0].value.id] = ("Seq", k[1], v[1], it[3], it[4]) if self._is_listlike(env.get(b.targets[0].value.id)) else ("Map", k[1], v[1], it[3], it[4])
+                        continue
+                self.stmt(fi, b, env)
+            return None
+        if isinstance(st, (ast.Assert, ast.Pass, ast.Raise, ast.Break, ast.Continue)):
+            return None
+        if isinstance(st, ast.AugAssign):
+            return None
+        return None
+
+    def _is_listlike(self, t):
+        return t is not None and t[0] in ("Seq", "List")
+
+    def assign(self, tg, v, env):
+        if isinstance(tg, ast.Name):
+            env[tg.id] = v
+        elif isinstance(tg, (ast.Tuple, ast.List)):
+            if v[0] == "Tuple" and len(v[1]) == len(tg.elts):
+                for t, x in zip(tg.elts, v[1]):
+                    self.assign(t, x, env)
+            else:
+                for t in tg.elts:
+                    self.assign(t, U("unpack"), env)
+
+    def bind_iter(self, target, it, env):
+        if it[0] == "NodeView":
+            it = ("Graph", it[1])
+        if it[0] == "Pairs" and isinstance(target, (ast.Tuple, ast.List)) and len(target.elts) == 2:
+            self.assign(target.elts[0], ("Idx", it[1]), env)
+            self.assign(target.elts[1], ("Idx", it[2]), env)
+        elif it[0] == "Seq":
+            if isinstance(target, ast.Name):
+                env[target.id] = ("Idx", it[2]) if not (isinstance(it[2], tuple) and it[2][:1] == ("TupleOf",)) else ("Tuple", [("Idx", s) for s in it[2][1]])
+            elif isinstance(target, (ast.Tuple, ast.List)) and isinstance(it[2], tuple) and it[2][:1] == ("TupleOf",):
+                for t, s in zip(target.elts, it[2][1]):
+                    self.assign(t, ("Idx", s), env)
+            else:
+                self.assign(target, U("iter"), env)
+        elif it[0] == "Graph":
+            if isinstance(target, ast.Name):
+                env[target.id] = ("Idx", ("NX", it[1]))
+        elif it[0] == "Map" and isinstance(target, ast.Name):
+            env[target.id] = ("Idx", it[1])
+        else:
+            self.assign(target, U("iter"), env)
+
+    # ---- expressions
+    def ev(self, fi, e, env):
+        try:
+            return self._ev(fi, e, env)
+        except XViolation:
+            raise
+        except AnalysisError:
+            raise
+        except Exception as ex:  # typing is best effort; unknown types only matter at sinks
+            return U(f"{type(ex).__name__} at {short(e, 40)}")
+
+    def _ev(self, fi, e, env):
+        ctx = self.ctx
+        if isinstance(e, ast.Name):
+            if e.id in env:
+                return env[e.id]
+            v = try_const(ctx, fi, e, default=None)
+            if isinstance(v, str):
+                return ("Key", v)
+            if v is not None:
+                return ("Const", v)
+            return U(f"name {e.id}")
+        if isinstance(e, ast.Constant):
+            return ("Key", e.value) if isinstance(e.value, str) else ("Const", e.value)
+        if isinstance(e, ast.Tuple):
+            return ("Tuple", [self.ev(fi, x, env) for x in e.elts])
+        if isinstance(e, ast.Starred):
+            return self.ev(fi, e.value, env)
+        if isinstance(e, ast.Subscript):
+            b = self.ev(fi, e.value, env)
+            if isinstance(e.slice, ast.Slice):
+                if isinstance(e.value, ast.Call) or b[0] in ("Seq",):
+                    # [-1] / slices of generator lists keep the element type
+                    return b
+                return b
+            k = self.ev(fi, e.slice, env)
+            if b[0] == "NodeView":
+                return ("AttrDict", b[1])
+            if b[0] == "AttrDict":
+                return ("Const", None)
+            if b[0] == "VS":
+                g, space = b[1], b[2]
+                if k == ("Key", "_nx_name"):
+                    return ("Seq", (space, g), ("NX", g), True, ("nodes", g))
+                if k[0] == "Key":
+                    part = ctx.repo.const("tucan.graph_attributes", "PARTITION")
+                    return ("Seq", (space, g), "COL" if k[1] == part else ("ATTR", k[1]), False, ("nodes", g))
+                return U("vs key")
+            if b[0] == "Seq" and k[0] == "Idx":
+                if k[1] != b[1] and self.strict:
+                    raise XViolation(e, f"sequence indexed by {fmt_space(b[1])} is subscripted with an index in {fmt_space(k[1])}")
+                return ("Idx", b[2])
+            if b[0] == "Map" and k[0] == "Idx":
+                if k[1] != b[1] and self.strict:
+                    raise XViolation(e, f"map keyed by {fmt_space(b[1])} is looked up with a key in {fmt_space(k[1])}")
+                return ("Idx", b[2])
+            if b[0] == "Gen" or (b[0] == "Seq" and k[0] == "Const"):
+                return b[1] if b[0] == "Gen" else ("Idx", b[2])
+            if b[0] == "ListOf":
+                return b[1]
+            if b[0] == "Tuple" and k[0] == "Const" and isinstance(k[1], int) and -len(b[1]) <= k[1] < len(b[1]):
+                return b[1][k[1]]
+            return U(f"subscript {b[0]}[{k[0]}]")
+        if isinstance(e, ast.Attribute):
+            b = self.ev(fi, e.value, env)
+            if b[0] == "IGraph" and e.attr == "vs":
+                return ("VS", b[1], b[2])
+            if b[0] == "Graph" and e.attr == "nodes":
+                return ("NodeView", b[1])
+            return ("Bound", b, e.attr)
+        if isinstance(e, ast.Call):
+            return self.call_expr(fi, e, env)
+        if isinstance(e, ast.DictComp):
+            g = e.generators[0]
+            it = self.ev(fi, g.iter, env)
+            env2 = dict(env)
+            self.bind_iter(g.target, it, env2)
+            k, v = self.ev(fi, e.key, env2), self.ev(fi, e.value, env2)
+            if k[0] == "Idx" and v[0] == "Idx":
+                bij = it[0] in ("Pairs", "Seq") and bool(it[3]) and not g.ifs and isinstance(e.key, (ast.Name, ast.Subscript)) and isinstance(e.value, (ast.Name, ast.Subscript))
+                return ("Map", k[1], v[1], bij, it[4] if it[0] in ("Pairs", "Seq") else None)
+            if k[0] == "Idx":
+                return ("Map", k[1], "VAL", False, it[4] if it[0] in ("Pairs", "Seq") else None)   # computed values: not a pure renaming
+            return U("dictcomp")
+        if isinstance(e, (ast.ListComp, ast.GeneratorExp)):
+            g = e.generators[0]
+            it = self.ev(fi, g.iter, env)
+            if it[0] == "NodeView":
+                it = ("Graph", it[1])
+            env2 = dict(env)
+            self.bind_iter(g.target, it, env2)
+            el = self.ev(fi, e.elt, env2)
+            idx = it[1] if it[0] in ("Seq",) else (("IG", it[1]) if it[0] == "Graph" else None)
+            n = it[4] if it[0] in ("Seq", "Pairs") else (("nodes", it[1]) if it[0] == "Graph" else None)
+            bij_src = (it[0] == "Graph") or (it[0] in ("Seq", "Pairs") and bool(it[3]))
+            if idx is None:
+                return U("listcomp source")
+            if el[0] == "Idx":
+                # [s[i] for i in p]: composition of bijections stays a bijection when e.elt is a subscript of a bij seq or the var itself
+                bij = bij_src and not g.ifs and (isinstance(e.elt, ast.Name) or (isinstance(e.elt, ast.Subscript) and self.ev(fi, e.elt.value, env2)[0] in ("Seq", "Map") and bool(self.ev(fi, e.elt.value, env2)[3])))
+                return ("Seq", idx, el[1], bij, n)
+            if el[0] == "Tuple":
+                comps = []
+                for i, x in enumerate(el[1]):
+                    comps.append(x[1] if x[0] == "Idx" else "VAL")
+                # remember which components are the iteration variable itself (bijective enumeration)
+                bijc = tuple(bij_src and not g.ifs and isinstance(el_ast, ast.Name) and isinstance(g.target, ast.Name) and el_ast.id == g.target.id
+                             for el_ast in e.elt.elts)
+                return ("Seq", idx, ("TupleOf", tuple(comps), bijc), False, n)
+            return ("Seq", idx, "VAL", False, n)
+        if isinstance(e, ast.IfExp):
+            a, b = self.ev(fi, e.body, env), self.ev(fi, e.orelse, env)
+            return a if a == b else U("ifexp")
+        if isinstance(e, ast.BinOp):
+            return ("Const", None)
+        if isinstance(e, ast.UnaryOp) and isinstance(e.operand, ast.Constant) and isinstance(e.op, ast.USub):
+            return ("Const", -e.operand.value)
+        return U(type(e).__name__)
+
+    def call_expr(self, fi, e, env):
+        ctx = self.ctx
+        f = e.func
+        r = ctx.repo.resolve_dotted(fi.module, f) if isinstance(f, (ast.Name, ast.Attribute)) and not (isinstance(f, ast.Name) and f.id in env) else None
+        args = [self.ev(fi, a, env) for a in e.args]
+        if not (r and r[0] in ("func", "ext")):
+            args = [("Graph", a[1]) if a[0] == "NodeView" else a for a in args]   # list(m.nodes) == list(m)
+        if r and r[0] == "func":
+            return self.call(r[1], args)
+        if r and r[0] == "ext":
+            q = r[1]
+            if q == "igraph.Graph.from_networkx":
+                g = args[0]
+                return ("IGraph", g[1] if g[0] == "Graph" else self.fresh(), "IG")
+            if q == "networkx.relabel_nodes":
+                g, m = args[0], args[1] if len(args) > 1 else U("no mapping")
+                self.relabels.append((fi, e, g, m))
+                return ("Graph", self.fresh("rel"))
+            if q in ("networkx.set_node_attributes",):
+                return ("Const", None)
+            if q == "networkx.Graph":
+                return ("Graph", self.fresh("new"))
+            if q == "networkx.convert_node_labels_to_integers":
+                return ("Graph", self.fresh("int"))
+            if q == "random.shuffle":
+                return ("Const", None)      # in-place permutation: element set and bijectivity unchanged
+            return U(q)
+        if isinstance(f, ast.Name) and (r is None or r[0] == "builtin") and f.id not in env:
+            name = f.id
+            if name == "zip":
+                if len(args) == 1 and isinstance(e.args[0], ast.Starred):
+                    src = args[0]
+                    if src[0] == "Seq" and isinstance(src[2], tuple) and src[2][:1] == ("TupleOf",):
+                        comps, bijc = src[2][1], src[2][2]
+                        return ("Tuple", [("Seq", "POS", c, bool(b), src[4]) for c, b in zip(comps, bijc)])
+                    return U("zip(*)")
+                if len(args) == 2 and args[0][0] == "Seq" and args[1][0] == "Seq":
+                    a, b = args
+                    if a[1] != b[1] and "POS" not in (a[1], b[1]):
+                        if self.strict:
+                            raise XViolation(e, f"zip pairs a sequence indexed by {fmt_space(a[1])} with one indexed by {fmt_space(b[1])}")
+                        self.notes.append("index-space mismatch in zip (reported by R-BLISS)")
+                    same_len = a[4] is not None and a[4] == b[4]
+                    return ("Pairs", a[2], b[2], bool(a[3] and b[3] and same_len), a[4] if same_len else None)
+                if len(args) == 2 and args[0][0] == "Graph" and args[1][0] == "Seq":
+                    g = args[0]
+                    return self.call_expr_zip_graph(e, g, args[1])
+                return U("zip")
+            if name == "enumerate":
+                a = args[0]
+                if a[0] == "Seq":
+                    return ("Pairs", a[1], a[2], a[3], a[4])
+                if a[0] == "Graph":
+                    return ("Pairs", ("IG", a[1]), ("NX", a[1]), True, ("nodes", a[1]))
+                return U("enumerate")
+            if name == "dict":
+                if not args:
+                    return ("Map", None, None, False, None)
+                a = args[0]
+                if a[0] == "Pairs":
+                    return ("Map", a[1], a[2], a[3], a[4])
+                if a[0] == "Map":
+                    return a
+                return U("dict")
+            if name in ("list", "tuple"):
+                if not args:
+                    return ("Seq", "POS", "VAL", False, None)
+                a = args[0]
+                if a[0] == "Graph":
+                    return ("Seq", ("IG", a[1]), ("NX", a[1]), True, ("nodes", a[1]))
+                if a[0] == "Gen":
+                    return ("ListOf", a[1])
+                return a
+            if name == "sorted":
+                a = args[0]
+                if a[0] == "Graph":
+                    return ("Seq", "POS", ("NX", a[1]), True, ("nodes", a[1]))
+                if a[0] == "Seq":
+                    return ("Seq", "POS", a[2], a[3], a[4])
+                return U("sorted")
+            if name == "range":
+                if len(e.args) == 1:
+                    n = self.len_symbol(fi, e.args[0], env)
+                    return ("Seq", "POS", "POS", True, n)
+                return ("Seq", "POS", "POS", False, None)
+            if name == "len":
+                return ("Const", None)
+            if name in ("set", "frozenset"):
+                return ("Seq", "HASH", args[0][2] if args and args[0][0] == "Seq" else "VAL", False, None)
+            if name == "max":
+                return ("Const", None)
+            return U(name)
+        if isinstance(f, ast.Attribute):
+            recv = self.ev(fi, f.value, env)
+            if recv[0] == "IGraph" and f.attr == "canonical_permutation":
+                self.bliss_sites.append((fi, e, recv))
+                col = kwarg(e, "color")
+                if col is None and self.strict:
+                    raise XViolation(e, "canonical_permutation is called without colours: atoms of different element / isotope / radical state may be exchanged")
+                ct = self.ev(fi, col, env) if col is not None else None
+                if self.strict and not (ct[0] == "Seq" and ct[1] == (recv[2], recv[1]) and ct[2] == "COL"):
+                    raise XViolation(e, f"colour vector has type {fmt(ct)}; needs a per-vertex sequence of partition classes of the same graph, in vertex order")
+                if self.conv is None:
+                    return ("Perm?", recv[1])
+                if self.conv == "FWD":
+                    return ("Seq", ("IG", recv[1]), ("CAN", recv[1]), True, ("nodes", recv[1]), "perm")
+                return ("Seq", ("CAN", recv[1]), ("IG", recv[1]), True, ("nodes", recv[1]), "perm")
+            if recv[0] == "IGraph" and f.attr == "permute_vertices":
+                p = args[0] if args else U("no arg")
+                if p[0] == "Perm?" or (p[0] == "Seq" and len(p) == 6 and p[5] == "perm"):
+                    return ("IGraph", recv[1], "CAN")     # igraph's own contract in every version
+                raise XViolation(e, f"permute_vertices receives {fmt(p)}, not the vector returned by canonical_permutation of the same graph")
+            if recv[0] == "Graph":
+                if f.attr == "copy":
+                    return ("Graph", recv[1])           # same nodes, same insertion order
+                if f.attr in ("number_of_nodes", "order"):
+                    return ("Const", None)
+                if f.attr == "nodes":
+                    return ("Seq", ("IG", recv[1]), ("NX", recv[1]), True, ("nodes", recv[1]))
+            if recv[0] == "Map" and f.attr in ("items",):
+                return ("Pairs", recv[1], recv[2], recv[3], recv[4])
+            if recv[0] == "Map" and f.attr == "keys":
+                return ("Seq", "POS", recv[1], recv[3], recv[4])
+            if recv[0] == "Map" and f.attr == "values":
+                return ("Seq", "POS", recv[2], recv[3], recv[4])
+            return U(f"method {f.attr}")
+        return U("call")
+
+    def call_expr_zip_graph(self, e, g, s):
+        if s[1] != ("IG", g[1]) and s[1] != "POS":
+            raise XViolation(e, f"zip pairs the nodes of a graph with a sequence indexed by {fmt_space(s[1])}")
+        return ("Pairs", ("NX", g[1]), s[2], bool(s[3]), s[4])
+
+    def len_symbol(self, fi, e, env):
+        """symbolic length: m.number_of_nodes() / len(m) / len(m.nodes) / len(list(m)) -> ('nodes', g)"""
+        if isinstance(e, ast.Call) and isinstance(e.func, ast.Attribute) and e.func.attr in ("number_of_nodes", "order") and not e.args:
+            t = self.ev(fi, e.func.value, env)
+            if t[0] == "Graph":
+                return ("nodes", t[1])
+        if isinstance(e, ast.Call) and isinstance(e.func, ast.Name) and e.func.id == "len" and e.args:
+            t = self.ev(fi, e.args[0], env)
+            if t[0] in ("Graph", "NodeView"):
+                return ("nodes", t[1])
+            if t[0] in ("Seq", "Map", "Pairs"):
+                return t[4]
+        if isinstance(e, ast.Name):
+            d = single_def(fi.node, e.id)
+            if d is not None:
+                return self.len_symbol(fi, d, env)
+        return None
+
+
+def fmt_space(s):
+    if isinstance(s, tuple) and len(s) == 2 and s[0] in ("NX", "IG", "CAN"):
+        return {"NX": "node labels", "IG": "igraph vertex ids (insertion positions)", "CAN": "canonical positions"}[s[0]]
+    return str(s)
+
+
+def fmt(t):
+    if t[0] in ("Seq", "Pairs", "Map"):
+        return f"{t[0]}[{fmt_space(t[1])} => {fmt_space(t[2])}]"
+    return t[0] + (f"({t[1]})" if len(t) > 1 and isinstance(t[1], str) else "")
+
+
+# --------------------------------------------------------------------------- R-BLISS
+
+
+def _type_canonicalize(ctx, conv):
+    can = entry(ctx, "canonicalize")
+    T = XTyper(ctx, conv)
+    g = ("Graph", "m")
+    try:
+        ret = T.call(can, [g])
+        return T, ret, None
+    except XViolation as v:
+        return T, None, v
+
+
+@rule("R-BLISS")
+def r_bliss(ctx) -> RuleResult:
+    res = RuleResult("R-BLISS", "the vector returned by canonical_permutation is consumed under the index convention of the installed igraph (or through permute_vertices); colours are the partition classes in vertex order; the relabel map types as Map[node labels => canonical positions]")
+    ver, src = installed_igraph_version(ctx)
+    conv = IGRAPH_CONVENTION.get(ver)
+    can = entry(ctx, "canonicalize")
+    clo = closure(ctx, "canonicalize")
+    n_sites = sum(1 for f in clo for cs in sites(ctx, f) if isinstance(cs.node.func, ast.Attribute) and cs.node.func.attr == "canonical_permutation")
+    if n_sites == 0:
+        raise AnalysisError("R-BLISS: no canonical_permutation call in the closure of canonicalize_molecule (anchor vanished)")
+    T, ret, viol = _type_canonicalize(ctx, conv)
+    if viol is not None:
+        node = viol.node
+        fi = next((f for f in clo if any(n is node for n in ast.walk(f.node))), can)
+        res.inst(fi.fq, short(node), "fail", detail=f"igraph {ver}: convention {conv}")
+        extra = ""
+        if conv and "zip pairs" in viol.msg or "subscripted with" in viol.msg:
+            extra = (f" — igraph {ver} returns canonical_permutation as "
+                     + ("result[vertex] = canonical position" if conv == "FWD" else "result[canonical position] = vertex")
+                     + "; the relabelling built here is therefore not the canonical one, and different listings of one molecule get different numberings")
+        res.fail(Finding("R-BLISS", fi.module.rel, fi.qualname, norm(node), viol.msg + extra, line=getattr(node, "lineno", None),
+                         extra={"igraph_version": ver, "convention": conv}))
+        res.counts = {"bliss_sites": n_sites}
+        return res
+    if conv is None:
+        res.notes.append(f"igraph {ver} is not in the convention table: only convention-free uses (permute_vertices) are accepted")
+    # the canonical relabel
+    rel = [(fi, node, g, m) for fi, node, g, m in T.relabels if fi.fq == can.fq]
+    if not rel:
+        raise AnalysisError("R-BLISS: canonicalize_molecule performs no relabel with the bliss result")
+    for fi, node, g, m in rel:
+        ok = m[0] == "Map" and isinstance(m[1], tuple) and m[1][0] == "NX" and isinstance(m[2], tuple) and m[2][0] == "CAN" and m[1][1] == m[2][1]
+        same_graph = ok and (g[0] != "Graph" or g[1] == m[1][1])
+        res.inst(fi.fq, short(node), "ok" if ok and same_graph else "fail", detail=f"mapping types as {fmt(m)}; igraph {ver} ({conv or 'unknown convention'})")
+        if m[0] == "Unknown":
+            raise AnalysisError(f"R-BLISS: cannot type the relabel map at {fi.loc(node)}: {m[1]}")
+        if not ok:
+            res.fail(Finding("R-BLISS", fi.module.rel, fi.qualname, norm(node),
+                             f"relabel map types as {fmt(m)}; it must map node labels to canonical positions of the same graph", line=node.lineno))
+        elif not same_graph:
+            res.fail(Finding("R-BLISS", fi.module.rel, fi.qualname, norm(node), "the canonical labels of one graph are applied to another graph", line=node.lineno))
+    for fi, node, recv in T.bliss_sites:
+        res.inst(fi.fq, short(node), "ok", detail="colours = partition classes of the same graph in vertex order")
+    res.counts = {"bliss_sites": n_sites, "relabels_typed": len(T.relabels)}
+    res.notes.append(f"igraph version {ver} read from {src}")
+    res.trusted = ["igraph: from_networkx keeps node order and stores labels in vs['_nx_name']; permute_vertices(canonical_permutation(..)) is the canonical form in every version; index convention of canonical_permutation per version (spec.py)"]
+    return res
+
+
+# --------------------------------------------------------------------------- R-BIJ
+
+
+@rule("R-BIJ")
+def r_bij(ctx) -> RuleResult:
+    res = RuleResult("R-BIJ", "every nx.relabel_nodes(G, M) in a public closure receives a map that is provably one-to-one and defined on all nodes of G")
+    ver, _ = installed_igraph_version(ctx)
+    conv = IGRAPH_CONVENTION.get(ver)
+    fis = all_public_closure(ctx)
+    sites_ = list(ext_calls(ctx, fis, names={"networkx.relabel_nodes"}))
+    if not sites_:
+        raise AnalysisError("R-BIJ: no relabel_nodes site (anchor vanished)")
+    for cs in sites_:
+        fi = cs.caller
+        T = XTyper(ctx, conv, strict=False)
+        # type the caller with its first parameter as a graph
+        params = params_of(fi.node)
+        args = [("Graph", "m")] + [U("param")] * (len(params) - 1)
+        try:
+            T.call(fi, args)
+        except XViolation as v:
+            res.inst(fi.fq, short(cs.node), "fail", detail=v.msg)
+            res.fail(Finding("R-BIJ", fi.module.rel, fi.qualname, norm(v.node), v.msg, line=getattr(v.node, "lineno", None)))
+            continue
+        mine = [(f, n, g, m) for f, n, g, m in T.relabels if n is cs.node]
+        if not mine:
+            raise AnalysisError(f"R-BIJ: relabel at {fi.loc(cs.node)} not reached by the typing pass")
+        _, node, g, m = mine[0]
+        if m[0] == "Map" and m[3] and m[4] is not None and isinstance(m[1], tuple) and m[1][0] in ("NX", "IG", "CAN") and m[4] == ("nodes", m[1][1]) \
+                and (g[0] != "Graph" or g[1] == m[1][1] or not str(g[1]).startswith(("m", "g"))):
+            res.inst(fi.fq, short(node), "ok", detail=f"{fmt(m)}: keys enumerate every node once, values are pairwise distinct, same length")
+            continue
+        # incremental construction (final labels): dedicated proof
+        ok, why = _incremental_bijection(ctx, fi, cs.node)
+        if ok is None:
+            if m[0] == "Map" and not m[3]:
+                res.inst(fi.fq, short(node), "fail", detail=f"{fmt(m)}")
+                res.fail(Finding("R-BIJ", fi.module.rel, fi.qualname, norm(node),
+                                 f"mapping {fmt(m)} is not provably one-to-one on all nodes (keys or values may repeat or be missing): atoms could be merged or left unnamed", line=node.lineno))
+                continue
+            raise AnalysisError(f"R-BIJ: construction of the mapping at {fi.loc(node)} not recognised ({fmt(m)}; {why})")
+        res.inst(fi.fq, short(node), "ok" if ok else "fail", detail=why)
+        if not ok:
+            res.fail(Finding("R-BIJ", fi.module.rel, fi.qualname, norm(node), why, line=node.lineno))
+    res.counts = {"relabel_sites": len(sites_)}
+    return res
+
+
+def _incremental_bijection(ctx, fi: FuncInfo, call: ast.Call):
+    """mapping filled by `M[k] = pool[...].pop()`; pools come from a builder that appends every node exactly once;
+    `assert len(M) == len(G.nodes)` dominates the relabel"""
+    fn = fi.node
+    if len(call.args) < 2 or not isinstance(call.args[1], ast.Name):
+        return None, "mapping is not a local variable"
+    mname = call.args[1].id
+    gexpr = call.args[0]
+    defs = assigned_names(fn).get(mname, [])
+    if not (len(defs) == 1 and isinstance(defs[0], (ast.Assign, ast.AnnAssign)) and isinstance(defs[0].value, ast.Dict) and not defs[0].value.keys):
+        return None, "mapping does not start as an empty dict"
+    stores = [n for n in own_walk(fn) if isinstance(n, ast.Assign) and isinstance(n.targets[0], ast.Subscript) and isinstance(n.targets[0].value, ast.Name) and n.targets[0].value.id == mname]
+    others = [n for n in own_walk(fn) if isinstance(n, ast.Call) and isinstance(n.func, ast.Attribute) and isinstance(n.func.value, ast.Name) and n.func.value.id == mname
+              and n.func.attr in ("update", "pop", "setdefault", "clear", "popitem")]
+    if not stores or others:
+        return None, "mapping is modified by something else than `M[k] = v` stores"
+    pools = set()
+    for st in stores:
+        v = st.value
+        if isinstance(v, ast.Name):
+            v = single_def(fn, v.id) or v
+        if not (isinstance(v, ast.Call) and isinstance(v.func, ast.Attribute) and v.func.attr == "pop" and not v.args and isinstance(v.func.value, ast.Subscript)
+                and isinstance(v.func.value.value, ast.Name)):
+            return False, f"value `{short(st.value)}` is not popped from a pool of unused labels: two atoms may receive the same final label"
+        pools.add(v.func.value.value.id)
+    if len(pools) != 1:
+        return None, "values come from several pools"
+    pool = pools.pop()
+    pdef = single_def(fn, pool)
+    if not isinstance(pdef, ast.Call):
+        return None, "pool is not built by a helper"
+    pcs = ctx.cg.resolve_call(fi, pdef, ctx.cg.local_types(fi), set(params_of(fn)))
+    if pcs.kind != "tucan":
+        return None, "pool builder is not a tucan function"
+    ok, why = _pool_builder_is_partition(ctx, pcs.target)
+    if not ok:
+        return False, why
+    # totality: assert len(M) == len(G.nodes) dominates the relabel
+    cfg = cfg_of(fn)
+    rn = cfg.stmt_node_containing(call)
+    asserted = False
+    gname = norm(gexpr)
+    for n in own_walk(fn):
+        if isinstance(n, ast.Assert) and isinstance(n.test, ast.Compare) and len(n.test.ops) == 1 and isinstance(n.test.ops[0], ast.Eq):
+            a, b = norm(n.test.left), norm(n.test.comparators[0])
+            sizes = {f"len({gname}.nodes)", f"len({gname})", f"{gname}.number_of_nodes()", f"len({gname}.nodes())", f"{gname}.order()"}
+            if {a, b} & {f"len({mname})"} and {a, b} & sizes:
+                an = cfg.node_of(n)
+                if an is not None and rn is not None and cfg.dominates(an, rn):
+                    asserted = True
+    if not asserted:
+        return False, "no dominating `assert len(mapping) == number of nodes`: an atom could keep its old label and collide with a new one"
+    return True, f"values popped from `{pool}` (built by {pcs.target.name}: every node appended once), totality asserted before the relabel"
+
+
+def _pool_builder_is_partition(ctx, bf: FuncInfo):
+    fn = bf.node
+    params = params_of(fn)
+    g = params[0]
+    appends = [n for n in own_walk(fn) if isinstance(n, ast.Call) and isinstance(n.func, ast.Attribute) and n.func.attr in ("append", "add")]
+    if len(appends) != 1:
+        return False, f"{bf.name}: labels are appended at {len(appends)} sites; cannot show each node lands in exactly one pool"
+    ap = appends[0]
+    loop = None
+    for n in own_walk(fn):
+        if isinstance(n, ast.For) and any(x is ap for x in ast.walk(n)):
+            loop = n
+    if loop is None or norm(loop.iter) not in (g, f"{g}.nodes", f"{g}.nodes()", f"list({g})", f"sorted({g})") or not isinstance(loop.target, ast.Name):
+        return False, f"{bf.name}: the appending loop does not run over every node of the graph"
+    if len(ap.args) != 1 or norm(ap.args[0]) != loop.target.id:
+        return False, f"{bf.name}: what is appended is not the node itself"
+    # unconditional in the loop body
+    for st in loop.body:
+        if isinstance(st, (ast.If, ast.Try, ast.While, ast.For)) and any(x is ap for x in ast.walk(st)):
+            return False, f"{bf.name}: the append is conditional; some node may be in no pool"
+        if isinstance(st, (ast.Continue, ast.Break)):
+            return False, f"{bf.name}: the loop may skip nodes"
+    # later only reordered: self-map update with sorted/list/reversed
+    for n in own_walk(fn):
+        if isinstance(n, ast.Call) and isinstance(n.func, ast.Attribute) and n.func.attr in ("pop", "remove", "clear", "extend", "insert") and n is not ap:
+            return False, f"{bf.name}: pools are modified after being filled (`{short(n)}`)"
+    return True, "partition of the node set"
